@@ -278,3 +278,34 @@ Example C13_properties_character_example :
   = Some (STR "Zo: yz", [(STR "b", 3, 3, [(STR "n", MInt 12)]); (STR "pause", 5, 0, [(STR "ms", MInt 250)]);
                          (STR "character", 0, 4, [(STR "name", MStr (STR "Zo"))])]%Z).
 Proof. split; [vm_compute; auto|split; vm_compute; reflexivity]. Qed.
+
+(* an explicit marker called "character" suppresses the implicit attribute: whatever colons the text
+   holds, the attributes are exactly those of the closed markers *)
+Theorem C13_explicit_character_marker : forall its,
+  Forall item_ok its ->
+  no_edge_space (text its) ->
+  (forall encl, enclosed its [] [] = Some encl -> exists e, In e encl /\ str_eqb (fst e) (STR "character") = true) ->
+  match enclosed its [] [] with
+  | Some encl =>
+      exists attrs, parse_markup (render its) = Some (text its, attrs) /\
+        length attrs = length encl /\
+        (forall e, In e encl -> exists a, In a attrs /\ aname a = fst e /\ aprops a = [] /\
+                                          text_for_attribute (text its) a = Some (snd e)) /\
+        (forall a, In a attrs -> exists e, In e encl /\ aname a = fst e /\ aprops a = [] /\
+                                           text_for_attribute (text its) a = Some (snd e))
+  | None => parse_markup (render its) = None
+  end.
+Proof. exact CP.explicit_character_marker. Qed.
+Print Assumptions C13_explicit_character_marker.
+
+Definition ex_xdoc : list item :=
+  [IOpen (STR "character"); IText (STR "Bob"); IClose (STR "character"); IText (STR ": hi: there")].
+Example C13_explicit_character_example :
+  Forall item_ok ex_xdoc /\ no_edge_space (text ex_xdoc) /\
+  enclosed ex_xdoc [] [] = Some [(STR "character", STR "Bob")] /\
+  option_map (fun r => (fst r, map (fun a => (aname a, apos a, alen a)) (snd r))) (parse_markup (render ex_xdoc)) =
+  Some (STR "Bob: hi: there", [(STR "character", 0, 3)]%Z).
+Proof.
+  split; [|split; [split; vm_compute; reflexivity|split; vm_compute; reflexivity]].
+  repeat constructor; try (vm_compute; (reflexivity || discriminate || (left; reflexivity))).
+Qed.
